@@ -45,7 +45,7 @@ def mc(v, tier):
 def edges(tier):
     """every transition of a GEN-sized CacheImpl model, as (from, op, to)"""
     c = dict(names='{"n1", "n2"}', types='{"TXT", "HINFO"}', data='{"x01"}', ttls="{1, 2}", desired=1,
-             tick=1000 if tier == "quick" else 500, tmax=2000, extra="ACTION_CONSTRAINT Dump")
+             tick=1000, tmax=2000, extra="ACTION_CONSTRAINT Dump")
     r = tlc("CacheImpl", None, cfg_text=MC_CFG % c, timeout=3000, workers=max(2, vlib.NCPU - 4), xmx="12g")
     vlib.require_ok(r, "CacheImpl edges")
     es = []
